@@ -536,6 +536,18 @@ def templates():
                         ["act8", "plain", "acte4"][p.rng.integers(3)])
         return lambda: torch.conv2d(a, w)
 
+    @reg("to_other_dtype")
+    def _(p, a):
+        # always a real dtype change: refused (ValueError) for packed low-bit tensors, a rescale for 8-bit ones
+        others = [d for d in (torch.float32, torch.float16, torch.bfloat16) if d != a.dtype]
+        dt = others[p.rng.integers(len(others))]
+        c = p.rng.integers(3)
+        if c == 0:
+            return lambda: a.to(dt)
+        if c == 1:
+            return lambda: a.to(dtype=dt)
+        return lambda: a.type(dt)
+
     # ---- in-place arithmetic: on a fresh quantized copy (the destination itself is judged) and on a float destination
     # that takes a quantized operand (residual adds, gating, masked updates)
     def small(p, a):
@@ -640,4 +652,4 @@ TEMPLATES = templates()
 SHAPE_OPS = {"view_flat", "view_shape", "reshape", "torch.reshape", "flatten", "unsqueeze", "squeeze", "transpose", "t",
              "permute", "select", "getitem_int", "getitem_slice", "getitem_index", "index_select", "expand", "expand_size1",
              "cat2", "cat3", "stack2", "stack3", "split", "chunk"}
-MOVE_OPS = {"clone", "detach", "contiguous", "to_dtype", "to_cpu", "to_copy", "copy_"}
+MOVE_OPS = {"clone", "detach", "contiguous", "to_dtype", "to_other_dtype", "to_cpu", "to_copy", "copy_"}
